@@ -105,7 +105,27 @@ def noop_dilute():
     return [] if same(got, want) else [f"no-op dilute step: bake gives {got}, the direct operation {want}"]
 
 
+def renamed_dilute_trackers():
+    """a dilute step with new_name, then a transfer out of the same container: the trackers must still see the transfer"""
+    out = {}
+    for new_name in (None, 'a_dil'):
+        a = Container('a', '50 mL', [(water, '5 mL'), (salt, '100 mg')])
+        b = Container('b', '50 mL')
+        r = Recipe().uses(a, b)
+        r.dilute(a, salt, '0.1 M', water, new_name)
+        r.transfer(a, b, '1 mL')
+        r.bake()
+        out[new_name] = (float(r.get_container_flows(a, unit='mL')['out']), r.get_substance_used(water, unit='mL', destinations=[a]))
+    if out[None] != out['a_dil']:
+        return [f"after dilute(..., new_name='a_dil') the later 1 mL transfer out of the container is invisible to the trackers: "
+                f"(outflow, water gained) = {out['a_dil']} instead of {out[None]} (the renamed object stays filed under 'a')"]
+    return []
+
+
 def replay(kind, clause):
+    if 'filed-under-own-name' in clause:
+        f = renamed_dilute_trackers()
+        return {'ok': not f, 'observed': f or 'trackers see every step', 'expected': 'the same answers with and without new_name'}
     if kind.startswith('dilute') and 'safe[' in clause:
         f = noop_dilute()
         return {'ok': not f, 'observed': f or 'bake = eager fold', 'expected': 'bake = eager fold'}
